@@ -1006,6 +1006,9 @@ func (e *Env) call(x *ECall) *SV {
 		return e.boolSV("(> " + arg(0).S + " " + e.old.alloc + ")")
 	case "allocated":
 		return e.boolSV("(and (> " + arg(0).S + " 0) (<= " + arg(0).S + " " + e.st.alloc + "))")
+	case "errClass":
+		c.declErrClass()
+		return e.intSV("(ext.errclass " + arg(0).S + ")")
 	case "crc32of":
 		c.declCRC()
 		return &SV{S: "(ext.crc32 " + arg(0).S + ")", T: types.Typ[types.Uint32]}
